@@ -289,8 +289,8 @@ type c13Case struct {
 
 var (
 	c13Statuses  = []int{101, 200, 400}
-	c13ConnVals  = []string{"Upgrade", "upgrade", "keep-alive, Upgrade", "keep-alive", "", hsAbsent}
-	c13UpgVals   = []string{"websocket", "WebSocket", "websockets", "h2c, websocket", "", hsAbsent}
+	c13ConnVals  = []string{"Upgrade", "upgrade", "keep-alive, Upgrade", "keep-alive", "", hsAbsent, "close upgrade"} // the last one: one element, the keyword glued by white space
+	c13UpgVals   = []string{"websocket", "WebSocket", "websockets", "h2c, websocket", "", hsAbsent, "h2c\twebsocket"} // ditto, with a tab
 	c13Accepts   = []string{"correct", "other-key", "absent", "case-flipped", "cut-short", "extended"}
 	c13RespProto = []string{"", "chat", "CHAT", "other", "cha", "chatx", "other, chat", "chat, other", "other\nchat", "chat\nother"} // none, requested, other letter case, unrequested, proper prefix / extension of a requested one
 	c13ReqLists  = [][]string{nil, {"chat"}, {"chat", "echo"}}
